@@ -148,9 +148,10 @@ def classify(desc, kind, got, want, data):
         if desc["form"] == "frame" and kind == "cop" and extra and all(g.endswith("*|") for g in extra) and \
                 {g[:-2].rstrip() for g in extra} == missing:
             return "frame-suffix-kept-in-copyright"
-        if desc["hostile"] == "mirror-tail" and kind == "con" and len(extra) == 1 and len(missing) == 1 and desc.get("mirror"):
-            g, w = next(iter(extra)), next(iter(missing))
-            if w.startswith(g) and w[len(g):].strip() == desc["mirror"]:
+        if desc["hostile"] == "mirror-tail" and kind == "con" and missing and desc.get("mirror"):
+            m = desc["mirror"]
+            shortened = {w[: -len(m)].rstrip() for w in missing if w.endswith(m)}
+            if len(shortened) == len(missing) and shortened <= got and extra <= shortened:
                 return "mirrored-prefix-strip-eats-value-tail"
     if desc["eol"] == "CR":
         return f"CR:{kind}:{desc['form']}"
